@@ -2290,7 +2290,10 @@ class DiskObjectStore(PackBasedObjectStore):
             ):
                 pass
         except BaseException:
-            final_pack.close()
+            # The failed read may still hold buffers exported from the mmap,
+            # which makes close() raise BufferError; roll back regardless.
+            with suppress(BufferError):
+                final_pack.close()
             with suppress(FileNotFoundError):
                 os.remove(target_pack_path)
             with suppress(FileNotFoundError):
